@@ -175,6 +175,15 @@ def core_removals(t, nadds):
                 yield adds + [['rm', i]]
 
 
+def core_remove_then_add(t):
+    """one addition, its removal, one further addition (every pair of symbols)"""
+    alpha = ref.DFAS[t].alphabet
+    for a in alpha:
+        for b in alpha:
+            yield [['add', a, None], ['rm', 0], ['add', b, None]]
+        yield [['set', a, 'el'], ['set', a, 'none'], ['add', a, None]]
+
+
 def nadd_for(t, tier, small=12):
     a = len(ref.DFAS[t].alphabet)
     if tier == 'quick':
@@ -191,6 +200,9 @@ def core_str_then_change(t):
                 yield [['add', s, None], ['str', ic], list(change), ['str', False]]
             for s2 in alpha[:8]:
                 yield [['add', s, None], ['str', ic], ['rm', 0], ['add', s2, None], ['str', False]]
+            # a serialisation (possibly refused) directly followed by one with the other flag
+            yield [['add', s, None], ['str', ic], ['str', not ic]]
+            yield [['add', s, None], ['str', ic], ['str', not ic], ['str', ic]]
 
 
 def leaf_counts(t):
